@@ -22,7 +22,7 @@ Lemma members_final_init (r : row) : forall nf k ms vs, members_final r nf k ms 
 Proof.
   induction r as [|[name c] t IH]; intros nf k ms vs D; destruct vs as [|v vs']; cbn [members_final members_init] in *; try exact I; try destruct D.
   split; [|eapply IH; eassumption].
-  eexists. split; [eassumption|]. destruct c; [exact I|reflexivity|exact I|reflexivity|reflexivity].
+  eexists. split; [eassumption|]. destruct c; [exact I|reflexivity|exact I|reflexivity|reflexivity|exact I].
 Qed.
 
 Lemma row_block_exec (bk : backend) (r : row) (n : nat) (ev : event) (st : state) :
@@ -543,7 +543,7 @@ Proof. induction cols as [|[name body] t IH]; intros nf k; cbn [prow_members pme
 
 Lemma col_default (c : column) : match c with ColVec _ _ _ | ColVec2 _ _ _ _ _ | ColFlat _ _ _ _ _ => default_value (col_type c) = VVec [] | _ => True end.
 Proof.
-  destruct c as [e|cr ps body|cr ps body line|c1 g1 c2 g2 body|c1 g1 c2 g2 body]; try exact I; cbn [col_type]; unfold default_value.
+  destruct c as [e|cr ps body|cr ps body line|c1 g1 c2 g2 body|c1 g1 c2 g2 body|cr ps body line]; try exact I; cbn [col_type]; unfold default_value.
   - rewrite vec_is_vector. reflexivity.
   - destruct (btype_cases body) as [E|E]; rewrite E; reflexivity.
   - rewrite vec_is_vector. reflexivity.
